@@ -161,7 +161,7 @@ theorem dispatch_ab {T : Tables} {syms : List SymbolInfo} {la : LookAhead} (hla 
             have hS1 : St T ASCII ({ c1 with newEnc := none } : Ctx) a1 := by
               rcases hres1 with hI | ⟨hf, hE⟩
               · exact St.ascii ⟨hI.dec, hI.text, hI.pend⟩
-              · exact St.exact (Or.inl rfl) ⟨hE.dec, hE.text, hE.full⟩ hf
+              · exact St.exact (Or.inl rfl) ⟨hE.dec, hE.text, hE.full, hE.pend⟩ hf
             obtain ⟨hmode, a', hres, htr2, hmsg2, hskip2, hend⟩ :=
               ih ASCII _ a1 c' mode' (by show ∀ x ∈ c1.msg, x < 256; rw [hmsg1]; exact hb) hS1 rfl
                 (htrk _ rfl rfl) hpt1 h
